@@ -4,7 +4,7 @@
 # (DEVTARGET, default /verif/target/dev; harness sources HARNESS_DIR), run a few shards, undo.
 set -u
 patch=$1; prop=$2; n=${3:-6}
-R=${DEVREPO:-/tmp/devrepo}; T=${DEVTARGET:-/verif/target/dev}; H=${HARNESS_DIR:-/verif/harness}; O=${DEVOUT:-/tmp/devm}
+R=${DEVREPO:-/tmp/devrepo}; export DV5_CRATE_ROOT=$R; T=${DEVTARGET:-/verif/target/dev}; H=${HARNESS_DIR:-/verif/harness}; O=${DEVOUT:-/tmp/devm}
 git -C $R diff --quiet || { echo "$R dirty"; exit 2; }
 git -C $R apply "$patch" || exit 2
 ( cd $H && CARGO_TARGET_DIR=$T cargo build --release --offline --config "paths=[\"$R\"]" 2>&1 | grep -E "^error" -A8 | head -20 )
